@@ -5,6 +5,7 @@
 //	%D%          head of the declaration: Name#[T,U] (generic) / fresh name (L1) / mangled name (L2)
 //	%F%          (drivers) the instantiated function or type
 //	#k:type#     (drivers) random value number k of the given type (the same value in every rendering of the op)
+//	&name&       (function bodies) reference to the plain package-level declaration `name` of lateUnits
 package main
 
 type Template struct {
@@ -18,6 +19,9 @@ type Template struct {
 	NoGo    bool     // uses the CTI methods of basic types: no compiled-Go oracle, no plain-Go copy
 	NoL1    bool     // mutually recursive types: the driver cannot mix the L1 copy with the generic partner
 	NP      int
+	Needs   []string // late units (lateUnits: plain declarations or Late generics) the body names, transitively
+	Late    bool     // a generic that "late" sessions declare only when a consumer has failed for want of it
+	Global  bool     // the body reads/writes package-level variables and calls package-level functions
 }
 
 func typeT(name, kind string, classes []string, under string) *Template {
@@ -34,6 +38,39 @@ func (t *Template) drv(d string) *Template {
 	t.Drv = d
 	return t
 }
+func (t *Template) needs(n ...string) *Template { t.Needs = n; return t }
+func (t *Template) late() *Template             { t.Late = true; return t }
+func (t *Template) global() *Template           { t.Global = true; return t }
+
+// plain (non generic) package-level declarations named by generic bodies.  "Late" sessions evaluate them only after
+// a consumer was instantiated once - and failed: the instantiation must then succeed and behave like the textual copy.
+type lateUnit struct {
+	Name, Src string
+}
+
+var lateUnits = []lateUnit{
+	{"lateShow", `func lateShow(x interface{}) string { return fmt.Sprint("[", x, "]") }`},
+	{"LateRec", `type LateRec struct { N int; S string }`},
+	{"lateVar", `var lateVar = 40`},
+}
+
+func findUnit(n string) *lateUnit {
+	for i := range lateUnits {
+		if lateUnits[i].Name == n {
+			return &lateUnits[i]
+		}
+	}
+	return nil
+}
+
+// package-level state and functions used by the bodies of the `global()` generics (gomacro session and oracle package)
+const globalDecls = `var gBase = 10
+var gCount int
+var gLast string
+var gTab = map[string]int{"a": 1}
+func gTwice(x int) int { return 2 * x }
+func gShow(x interface{}) string { return fmt.Sprint("<", x, ">") }
+func gBump(d int) int { gCount += d; return gCount }`
 
 func catalogue() []*Template {
 	A := "any"
@@ -136,6 +173,35 @@ func catalogue() []*Template {
 			`fmt.Sprint(%F%(#0:func($0) $1#, #1:[]$0#))`),
 		funcT("Unbox", []string{A}, `func %D%(b @Box<@Opt<$0>>, d $0) $0 { if b.V.Ok { return b.V.V }; return d }`,
 			`fmt.Sprint(%F%(#0:@Box<@Opt<$0>>#, #1:$0#))`),
+		// ---------------- bodies that use package-level variables and functions (the instance must run in the
+		// environment of the DECLARATION, wherever it is named)
+		funcT("AddBase", []string{"int"}, `func %D%(x $0) $0 { return x + $0(gTwice(gBase)) }`,
+			`func() string { gBase = int(#1:int8#); return fmt.Sprint(%F%(#0:$0#), gBase) }()`).infer().global(),
+		funcT("Tally", []string{A}, `func %D%(v $0) string { gCount += 3; gLast = gShow(v); return fmt.Sprint(gBump(2), gLast) }`,
+			`func() string { gCount = int(#1:int8#); r := %F%(#0:$0#); return fmt.Sprint(r, gCount, gLast) }()`).infer().global(),
+		funcT("Ticker", []string{A}, `func %D%(d $0) func() string { return func() string { gCount++; return fmt.Sprint(d, gCount, gTwice(gBase)) } }`,
+			`func() string { gCount = int(#1:int8#); gBase = int(#2:int8#); f := %F%(#0:$0#); f(); return f() + fmt.Sprint(gCount) }()`).global(),
+		funcT("Each", []string{A}, `func %D%(xs []$0) string { s := ""; for i, x := range xs { s += gShow(x); gTab["n"] = i + gBase }; return s + fmt.Sprint(len(gTab), gTab["n"]) }`,
+			`func() string { gTab = map[string]int{"a": 1}; gBase = int(#1:int8#); return %F%(#0:[]$0#) }()`).global(),
+		funcT("BoxBase", []string{"int"}, `func %D%(x $0) @Box<$0> { gLast = "bb"; return @Box<$0>{V: x * $0(gBase)} }`,
+			`func() string { gBase = int(#1:int8#); gLast = ""; return fmt.Sprint(%F%(#0:$0#), gLast) }()`).global(),
+
+		// ---------------- bodies that name something which may be declared only later
+		typeT("LateBox", "type", []string{A}, `struct { W $0; Tag string }`).late(),
+		funcT("LateLen", []string{A}, `func %D%(xs []$0) int { return len(xs) * 3 }`,
+			`fmt.Sprint(%F%(#0:[]$0#))`).late(),
+		funcT("UseLateF", []string{A}, `func %D%(x $0) string { return &lateShow&(x) + "!" }`,
+			`fmt.Sprint(%F%(#0:$0#))`).needs("lateShow"),
+		funcT("UseLateV", []string{A}, `func %D%(x $0) string { &lateVar&++; return fmt.Sprint(x, lateVar) }`,
+			`func() string { lateVar = int(#1:int8#); return %F%(#0:$0#) }()`).needs("lateVar"),
+		funcT("UseLateG", []string{A}, `func %D%(xs []$0) int { return @LateLen<$0>(xs) + 1 }`,
+			`fmt.Sprint(%F%(#0:[]$0#))`).needs("LateLen"),
+		funcT("OuterLate", []string{A}, `func %D%(x $0) string { var b @Box<$0>; b.V = x; return fmt.Sprint(b) + @UseLateF<$0>(x) }`,
+			`fmt.Sprint(%F%(#0:$0#))`).needs("lateShow"),
+		typeT("HoldLate", "type", []string{A}, `struct { V $0; L LateRec }`).needs("LateRec"),
+		typeT("WrapLate", "type", []string{A}, `struct { In @LateBox<$0>; K int }`).needs("LateBox"),
+		typeT("PairLate", "type", []string{A}, `struct { P @Pair<$0, $0>; H *@HoldLate<$0> }`).needs("LateRec"),
+
 		funcT("Transpose", []string{A, "constint", "constint"}, `func %D%(m @Matrix<$0, $1, $2>) @Matrix<$0, $2, $1> { var r @Matrix<$0, $2, $1>; for i := range m { for j := range m[i] { r[j][i] = m[i][j] } }; return r }`,
 			`fmt.Sprint(%F%(#0:@Matrix<$0, $1, $2>#))`),
 	}
